@@ -396,6 +396,8 @@ def load(f, **options):  # type: (typing.IO, **typing.Any) -> canmatrix.CanMatri
 
             elif mode in {Mode.send, Mode.sendReceive, Mode.receive}:
                 if line.startswith('['):
+                    if ']' not in line:
+                        raise ValueError("unterminated frame name")
                     multiplexor = None
                     # found new frame:
                     if frame_name != line.replace('[', '').replace(']', '').replace('"', '').strip():
